@@ -982,6 +982,10 @@ func (e *Engine) findIndicesDigitPrefilter(haystack []byte) (int, int, bool) {
 			if endPos != -1 {
 				return digitPos, endPos, true
 			}
+			if !e.digitVerifyBounded {
+				// O(n) per failed candidate is O(n^2): one linear search instead.
+				return e.findIndicesDFAAtWithState(haystack, digitPos+1, state)
+			}
 		} else {
 			atomic.AddUint64(&e.stats.NFASearches, 1)
 			start, end, found := state.pikevm.SearchAt(haystack, digitPos)
@@ -1031,6 +1035,10 @@ func (e *Engine) findIndicesDigitPrefilterAt(haystack []byte, at int) (int, int,
 			if endPos != -1 {
 				return digitPos, endPos, true
 			}
+			if !e.digitVerifyBounded {
+				// O(n) per failed candidate is O(n^2): one linear search instead.
+				return e.findIndicesDFAAtWithState(haystack, digitPos+1, state)
+			}
 		} else {
 			atomic.AddUint64(&e.stats.NFASearches, 1)
 			start, end, found := state.pikevm.SearchAt(haystack, digitPos)
@@ -1072,6 +1080,10 @@ func (e *Engine) findIndicesDigitPrefilterAtWithState(haystack []byte, at int, s
 			endPos := e.dfa.SearchAtAnchored(state.dfaCache, haystack, digitPos)
 			if endPos != -1 {
 				return digitPos, endPos, true
+			}
+			if !e.digitVerifyBounded {
+				// O(n) per failed candidate is O(n^2): one linear search instead.
+				return e.findIndicesDFAAtWithState(haystack, digitPos+1, state)
 			}
 		} else {
 			atomic.AddUint64(&e.stats.NFASearches, 1)
